@@ -46,15 +46,18 @@ def classify(trip):
     return ('x' if n2 == 'G' else 'h'), True
 
 
-def safe_span(strand, r1, r2):
+def safe_span(strand, r1, r2, dove=(0, 0)):
     """[lo, hi) between the 5' ends of the two mates (r = (ref_start, ref_end)); whatever a mate reads beyond
-    the 5' end of the other one (dove tail) is outside."""
+    the 5' end of the other one (dove tail) is outside.  dove = (dove_R1_distance, dove_R2_distance), documented as
+    "Do not call methylation N bases from the end of R1" / "... of R2" (tapsTabulator): the span is shortened by that many
+    bases at the fragment end where R1 / R2 starts."""
+    d1, d2 = dove
     if strand == '+':
-        return r1[0], r2[1]
-    return r2[0], r1[1]
+        return r1[0] + d1, r2[1] - d2
+    return r2[0] + d2, r1[1] - d1
 
 
-def molecule_consensus(fragments, strand, unsafe, min_phred=None, oriented=True):
+def molecule_consensus(fragments, strand, unsafe, min_phred=None, oriented=True, dove=(0, 0)):
     """The consensus of a molecule made of several fragments, from the package's definition of it (property C13):
     every fragment contributes ONE call per position - the base of the higher-quality mate where both mates cover the
     position; mates of equal quality which disagree, or an N, are no call - and the consensus base is the one called
@@ -66,7 +69,7 @@ def molecule_consensus(fragments, strand, unsafe, min_phred=None, oriented=True)
     votes = {}
     for obs1, obs2, r1, r2 in fragments:
         if r2 is not None and not unsafe and oriented:
-            lo, hi = safe_span(strand, r1, r2)
+            lo, hi = safe_span(strand, r1, r2, dove)
         else:
             lo, hi = None, None
         for p in set(obs1) | set(obs2 or {}):
@@ -93,7 +96,7 @@ def molecule_consensus(fragments, strand, unsafe, min_phred=None, oriented=True)
     return out
 
 
-def expectations(refseq, strand, taps_strand, unsafe, r1, r2, covered, observed, oriented=True):
+def expectations(refseq, strand, taps_strand, unsafe, r1, r2, covered, observed, oriented=True, dove=(0, 0)):
     """
     r1, r2   : (ref_start, ref_end) of the mates (r2 None for a single-end fragment)
     oriented : the mates map to opposite strands (False: an improper same-strand pair)
@@ -113,7 +116,7 @@ def expectations(refseq, strand, taps_strand, unsafe, r1, r2, covered, observed,
         region = set(covered)
         may_require = False
     elif r2 is not None and not unsafe:
-        lo, hi = safe_span(strand, r1, r2)
+        lo, hi = safe_span(strand, r1, r2, dove)
         region = {p for p in covered if lo <= p < hi}
         may_require = True
     elif r2 is not None:
